@@ -3,6 +3,7 @@ import Iavl.Model.Sha256
 import Iavl.Model.Proof
 import Iavl.Model.Compress
 import Iavl.Model.Delta
+import Iavl.Model.Importer
 /-
   The executable face of the model: a line-protocol interpreter that answers every operation of a
   history with exactly the definitions the theorems are about (`VTree.step`, `hashNode`, `mkProof`,
@@ -97,8 +98,59 @@ structure XState where
   vs : VState OT
   opened : Bool
   cfgIv : Option Nat
+  streams : List (String × List (Option RawNode)) := []
 
 def init : XState := { vs := initT none, opened := false, cfgIv := none }
+
+/-! ### import (C10) -/
+def rawOfExport (n : ExportNode Bytes Bytes) : RawNode := ⟨some n.key, n.value, n.version, n.height⟩
+def rawOfC (n : CNode Bytes Bytes) : RawNode := ⟨n.key, n.value, n.version, n.height⟩
+
+def parseInt (s : String) : Int :=
+  if s.startsWith "-" then - ((s.drop 1).toString.toNat!) else s.toNat!
+
+def parseRaw (tok : String) : Option (Option RawNode) :=
+  if tok == "nil" then some none else
+  match tok.splitOn "/" with
+  | [k, v, ver, h] =>
+    match dec k, dec v with
+    | some k, some v => some (some ⟨k, v, parseInt ver, parseInt h⟩)
+    | _, _ => none
+  | _ => none
+
+def parseNodes (s : String) : List (Option RawNode) :=
+  if s == "" || s == "-" then [] else (s.splitOn ",").filterMap parseRaw
+
+/-- fold a (possibly compressed) stream through the importer; result text as the harness prints it -/
+def runImport (importVer : Int) (zip : Bool) (nodes : List (Option RawNode)) (commit : Bool) :
+    String × Option (Option (Node Bytes Bytes)) :=
+  let rec go (st : List ImpEntry) (z : ZState) (ns : List (Option RawNode)) (i : Nat) : String × Option (List ImpEntry) :=
+    match ns with
+    | [] => ("ok", some st)
+    | n :: rest =>
+      let dn : ImpOut (ZState × Option RawNode) :=
+        if zip then
+          match zAdd z n with
+          | .ok (z', r) => .ok (z', some r)
+          | .err => .err
+          | .panic => .panic
+        else .ok (z, n)
+      match dn with
+      | .err => ("err:add@" ++ toString i, none)
+      | .panic => ("panic", none)
+      | .ok (z', n') =>
+        match impAdd importVer st n' with
+        | .ok st' => go st' z' rest (i + 1)
+        | .err => ("err:add@" ++ toString i, none)
+        | .panic => ("panic", none)
+  match go [] ⟨[], [], []⟩ nodes 0 with
+  | (msg, none) => (msg, none)
+  | (_, some st) =>
+    if !commit then ("ok", none) else
+    match impCommit st with
+    | .ok t => ("ok", some t)
+    | _ => ("err:commit", none)
+
 
 def optKey (s : String) : Option (Option Bytes) := dec s
 
@@ -201,9 +253,10 @@ def stepOp (x : XState) (op : Op Bytes Bytes) : XState × String :=
 
 def parseIv (s : String) : Option Nat := if s == "-" then none else s.toNat?
 
-def exec (x : XState) (args : List String) : XState × String :=
+partial def exec (x : XState) (args : List String) : XState × String :=
   match args with
   | "new" :: _ => (init, "ok")
+  | "fresh" :: _ => ({ init with streams := x.streams }, "ok")
   | "cfg" :: rest =>
     let iv := rest.foldl (fun acc a => if a.startsWith "iv=" then parseIv (a.drop 3).toString else acc) x.cfgIv
     ({ x with cfgIv := iv }, "ok")
@@ -242,17 +295,45 @@ def exec (x : XState) (args : List String) : XState × String :=
   | ["getv", k, n] => match dec k with | some (some k) => stepOp x (.getVersioned k n.toNat!) | _ => (x, "bad")
   | "miter" :: rest => (x, immOp (x.vs.base + 1) x.vs.working ("iter" :: rest))
   | "miterate" :: rest => (x, immOp (x.vs.base + 1) x.vs.working ("iterate" :: rest))
+  | "imm" :: n :: "export" :: mode :: rest =>
+    match findVer x.vs.versions n.toNat! with
+    | none => (x, "err")
+    | some c =>
+      let out := immOp (n.toNat! + 1) c ("export" :: mode :: rest)
+      let raws : List (Option RawNode) := match c with
+        | none => []
+        | some t =>
+          let ns := exportNodes (n.toNat! + 1) t
+          if mode == "zip" then
+            match cexpAll (K' := Bytes) deltaEnc ⟨none, []⟩ ns with
+            | some (_, cs) => cs.map (fun c => some (rawOfC c))
+            | none => []
+          else ns.map (fun e => some (rawOfExport e))
+      let x' := rest.foldl (fun (acc : XState) a =>
+        if a.startsWith "store=" then { acc with streams := ((a.drop 6).toString, raws) :: acc.streams } else acc) x
+      (x', out)
   | "imm" :: n :: rest =>
     match findVer x.vs.versions n.toNat! with
     | none => (x, "err")
     | some c => (x, immOp (n.toNat! + 1) c rest)
+  | "import" :: ver :: mode :: rest =>
+    let nodes : List (Option RawNode) := rest.foldl (fun acc a =>
+      if a.startsWith "stream=" then ((x.streams.find? (fun p => p.1 == (a.drop 7).toString)).map (·.2)).getD []
+      else if a.startsWith "nodes=" then parseNodes (a.drop 6).toString else acc) []
+    let commit := !rest.contains "nocommit"
+    let iver := parseInt ver
+    if iver < 0 || !x.vs.versions.isEmpty || x.vs.working.isSome then (x, "err:new") else
+    match runImport iver (mode == "zip") nodes commit with
+    | (msg, some t) =>
+      ({ x with vs := { x.vs with versions := [(iver.toNat, t)], working := t, lastSaved := t, base := iver.toNat } }, msg)
+    | (msg, none) => (x, msg)
   | ["vproof", k, n] =>
     match findVer x.vs.versions n.toNat!, dec k with
     | some (some t), some (some k) => (x, fmtProofRes (getProof (n.toNat! + 1) t k))
     | _, _ => (x, "err")
   | "version" :: _ => (x, toString x.vs.base)
+  | "ifempty" :: rest => if x.vs.working.isSome then (x, "skipped") else exec x rest
   | "savecs" :: _ => (x, "?")
-  | "import" :: _ => (x, "?")
   | "hold" :: _ => (x, "?")
   | "release" :: _ => (x, "?")
   | "reads" :: _ => (x, "?")
